@@ -2,6 +2,9 @@ package checks
 
 import (
 	"context"
+
+	ipfslog "berty.tech/go-ipfs-log"
+	logiface "berty.tech/go-ipfs-log/iface"
 	"fmt"
 	"sync"
 	"testing"
@@ -19,21 +22,46 @@ import (
 // acknowledged write is in the log and the view is the last-writer-wins replay of the log.
 
 type CaseC17r struct {
-	Type   string `json:"type"` // keyvalue | docstore
-	Pre    int    `json:"pre"`
-	First  string `json:"first"`  // write | merge
+	Type string `json:"type"` // keyvalue | docstore | eventlog (eventlog: first = update only)
+	Pre  int    `json:"pre"`
+	// First: write | merge (a real call of the store, held at the hook point) | update: the harness issues the
+	// very call that ends every write and merge - Index().UpdateIndex(OpLog(), nil) - with the log wrapped so that
+	// its first Values() is held right after it has returned: a view update preempted after its walk, for any
+	// index implementation, hook or not (an index that does not walk the log in UpdateIndex is simply not held)
+	First  string `json:"first"`
 	Remote int    `json:"remote"` // entries of the other writer (merge)
 	Second []int  `json:"second"` // keys written while the first operation is held (the first writes key 0)
 }
 
 func genC17r(rt *rapid.T) CaseC17r {
-	return CaseC17r{
-		Type:   rapid.SampledFrom([]string{"keyvalue", "docstore"}).Draw(rt, "type"),
+	c := CaseC17r{
+		Type:   rapid.SampledFrom([]string{"keyvalue", "docstore", "eventlog"}).Draw(rt, "type"),
 		Pre:    rapid.IntRange(0, 4).Draw(rt, "pre"),
-		First:  rapid.SampledFrom([]string{"write", "write", "merge"}).Draw(rt, "first"),
+		First:  rapid.SampledFrom([]string{"write", "write", "merge", "update"}).Draw(rt, "first"),
 		Remote: rapid.IntRange(1, 3).Draw(rt, "remote"),
 		Second: rapid.SliceOfN(rapid.IntRange(0, 2), 1, 3).Draw(rt, "second"),
 	}
+	if c.Type == "eventlog" {
+		c.First = "update" // (its index has no hook point: it does not walk the log when it is updated)
+	}
+	return c
+}
+
+// gatedLog is the store's own log; its first Values() call is held right after it has returned its result.
+type gatedLog struct {
+	ipfslog.Log
+	once     sync.Once
+	computed chan struct{}
+	release  chan struct{}
+}
+
+func (g *gatedLog) Values() logiface.IPFSLogOrderedEntries {
+	v := g.Log.Values()
+	g.once.Do(func() {
+		close(g.computed)
+		<-g.release
+	})
+	return v
 }
 
 func execC17r(c CaseC17r) *Outcome {
@@ -102,7 +130,21 @@ func execC17r(c CaseC17r) *Outcome {
 		err error
 	}
 	firstDone := make(chan res, 1)
+	if c.First == "update" {
+		mu.Lock()
+		armed = false // (the hook point is not used: the wrapped log is the park point)
+		mu.Unlock()
+		gl := &gatedLog{Log: s0.OpLog(), computed: parkedCh, release: release}
+		go func() {
+			err := s0.Index().UpdateIndex(gl, nil)
+			gl.once.Do(func() {}) // an index that did not walk the log must not hold a later reader
+			firstDone <- res{"", err}
+		}()
+	}
 	go func() {
+		if c.First == "update" {
+			return
+		}
 		if c.First == "write" {
 			h, err := writeReturningHash(ctx, s0, c.Type, 0, 5, 5000)
 			firstDone <- res{h, err}
@@ -110,13 +152,18 @@ func execC17r(c CaseC17r) *Outcome {
 		}
 		firstDone <- res{"", syncFrom(cl, 0, 1)}
 	}()
+	held := true
 	select {
 	case <-parkedCh:
 	case r := <-firstDone:
 		if r.err != nil {
 			return fail("the first operation (%s) failed: %v", c.First, r.err)
 		}
-		return fail("harness: the first operation (%s) ended without updating the view", c.First)
+		if c.First != "update" {
+			return fail("harness: the first operation (%s) ended without updating the view", c.First)
+		}
+		held = false // this index does not walk the log when it is updated
+		firstDone <- r
 	case <-time.After(25 * time.Second):
 		o.Inconclusive = true
 		return o
@@ -129,7 +176,11 @@ func execC17r(c CaseC17r) *Outcome {
 		}
 	}()
 	got, overlapped := 0, 0
-	wait := time.After(300 * time.Millisecond) // a schedule choice: writes that wait for a lock the held one has finish later
+	waitFor := 300 * time.Millisecond
+	if !held {
+		waitFor = 20 * time.Second
+	}
+	wait := time.After(waitFor) // a schedule choice: writes that wait for a lock the held one has finish later
 loop:
 	for got < len(c.Second) {
 		select {
@@ -188,6 +239,10 @@ loop:
 	if out := viewIsReplay(s0, c.Type, where); out != nil {
 		return out
 	}
+	if !held {
+		o.Labels = append(o.Labels, "index-does-not-walk-the-log-at-update")
+		return o
+	}
 	o.NonTrivial = true // a view update was held after its walk of the log while other write calls were in flight
 	o.Labels = append(o.Labels, "held-after-walk:"+c.First)
 	if overlapped > 0 {
@@ -199,3 +254,13 @@ loop:
 }
 
 func TestC17IndexWalk(t *testing.T) { runCheck(t, "C17", genC17r, execC17r) }
+
+// TestC08IndexWalk: the same scenario on event logs decides C08's "never removes an entry [from the listing]": a
+// view update preempted after its walk of the log and overtaken by later writes must not put the older listing back.
+func TestC08IndexWalk(t *testing.T) {
+	runCheck(t, "C08", func(rt *rapid.T) CaseC17r {
+		c := genC17r(rt)
+		c.Type, c.First = "eventlog", "update"
+		return c
+	}, execC17r)
+}
